@@ -12,8 +12,8 @@ const SPEC: Spec = Spec {
         "iterator call sequences are bounded in length (every sequence up to the bound is executed; sequences are longer than the digit lists, so exhaustion and fused behaviour are inside the bound)",
         "refint base-256 / 2^32 / two's-complement export is trusted; cross-checked against Python int.to_bytes on a transcript slice",
     ],
-    bounds_quick: "E1 +-Dense(S32,3) and 2^(8k-1), 2^(8k-1)+-1, 2^(8k)-1 for k<=24; Ib bytes {00,01,7f,80,ff}^<=7; Iw u32 {0,1,2^31,2^32-1}^<=7 + long padded slices; IT call sequences up to length 8 on 16 values x 2 iterator kinds",
-    bounds_thorough: "E1; Ib length <= 9; Iw length <= 9; IT call sequences up to length 10",
+    bounds_quick: "E1 +-Dense(S32,3) and 2^(8k-1), 2^(8k-1)+-1, 2^(8k)-1 for k<=24; Ib bytes {00,01,7f,80,ff}^<=7; Iw u32 {0,1,2^31,2^32-1}^<=7 + long padded slices; IT call sequences up to length 8 on 16 values x 2 iterator kinds; L every byte length 8..=72 and 255,256,257,1000,8801 x 8 shapes x 5 paddings (imports, word imports, exports)",
+    bounds_thorough: "E1; Ib length <= 9; Iw length <= 9; IT call sequences up to length 10; L up to 32793 bytes",
     hang_secs: 120,
     probes: None,
     max_workers: 16,
@@ -398,6 +398,50 @@ fn body(ctx: &mut Ctx) {
                     let _ = pad;
                     w.push(0);
                 }
+            }
+        }
+    }
+    // ---- L: every byte length 8..=72 in 8 shapes with sign / zero padding, and long values (thousands of bytes)
+    if ctx.space("L") {
+        let mut lens: Vec<usize> = (8..=72).collect();
+        lens.extend(tier.pick(vec![255, 256, 257, 1000, 8801], vec![255, 256, 257, 1000, 8191, 8192, 8193, 8801, 32793]));
+        let pre: Vec<(BigUint, BigInt)> = vec![(BigUint::ZERO, BigInt::ZERO), (bu(&alpha::pat(9, 10)), -BigInt::from(bu(&alpha::pat(9, 10))))];
+        for (o, &l) in lens.iter().enumerate() {
+            if !ctx.mine(o as u64) {
+                continue;
+            }
+            let mut st = 0x1234_5678_9abc_def0u64 ^ (l as u64);
+            let dense: Vec<u8> = (0..l).map(|_| (alpha::lcg(&mut st) >> 56) as u8).collect();
+            let mut shapes: Vec<Vec<u8>> = vec![dense.clone(), vec![0xff; l], vec![0x00; l]];
+            for top in [0x7fu8, 0x80, 0x01, 0xfe] {
+                let mut v = dense.clone();
+                v[l - 1] = top;
+                shapes.push(v);
+            }
+            let mut v = vec![0u8; l];
+            v[l - 1] = 0x80;
+            shapes.push(v); // -2^(8l-1)
+            for b in &shapes {
+                import_bytes(ctx, b);
+                for (pad, n) in [(0x00u8, 1usize), (0x00, 9), (0xff, 1), (0xff, 8)] {
+                    let mut p = b.clone();
+                    p.extend(std::iter::repeat(pad).take(n));
+                    import_bytes(ctx, &p);
+                }
+                // the same bytes as u32 words, with redundant padding
+                let mut w: Vec<u32> = b.chunks(4).map(|c| c.iter().enumerate().fold(0u32, |a, (i, &x)| a | ((x as u32) << (8 * i)))).collect();
+                import_words(ctx, &w, &pre);
+                w.extend([0, 0, 0]);
+                import_words(ctx, &w, &pre);
+                // and exported back
+                let n = Nat::from_bytes_le(b);
+                export_value(ctx, &Int::new(false, n.clone()));
+                if !n.is_zero() {
+                    export_value(ctx, &Int::new(true, n));
+                }
+            }
+            if l == 64 || l == 8801 {
+                ctx.sample(|| format!("{} bytes x 8 shapes x 5 paddings: every byte / signed-byte / u32 import, every export of the value", l));
             }
         }
     }
